@@ -26,7 +26,7 @@ decides anything; c12_adapters.py only gives the areas one face.
 
 Clauses (C12.<name>): template, template-yaml, template-schema, template-loads, spec-loaded, export, size, image,
 marker, computed-field, parse-rejects, verify-rejects, binary-roundtrip, config-roundtrip, config-value,
-in-range-rejected, object-history, cli, terminates.  Discriminators of data findings carry '@<directory>/<description file>'.
+in-range-rejected, out-of-range-accepted, schema-refuses-loadable-value, object-history, cli, terminates.  Discriminators of data findings carry '@<directory>/<description file>'.
 """
 from __future__ import annotations
 
@@ -52,6 +52,7 @@ KINDS = ["pfr.cmpa", "pfr.cfpa", "ifr.romcfg", "ifr.cmactable", "bca", "fcf", "f
 # worker plumbing
 
 _STATE: dict[str, dict] = {}  # inst_id -> base state (LRU of 3)
+_LAST_VALIDATOR: list = [None]  # what fastjsonschema.compile returned last (= the area's full schema after area.validate)
 _INIT = False
 
 
@@ -80,6 +81,7 @@ def _worker_init() -> None:
                 memo.clear()
             v = memo[key] = orig(definition, handlers=handlers, formats=formats, use_default=use_default,
                                  use_formats=use_formats, detailed_exceptions=detailed_exceptions)
+        _LAST_VALIDATOR[0] = v
         return v
 
     fastjsonschema.compile = compile_memo
@@ -946,6 +948,7 @@ def targets_of(st: dict, regname: str, tier: str, seed: int = 0) -> list[dict]:
             out.append({"form": "reg", "value": _hexstr(v, 32, False), "raw": v, "width": 32})
         for v in AR.zero_byte_patterns(32):
             out.append({"form": "reg", "value": _hexstr(v, 32, False), "raw": v, "width": 32, "zero_byte": True})
+        out.append({"form": "reg", "value": "0x100000000", "raw": 0, "width": 32, "oor": True})
         return out
     model: AR.AreaModel = mdl["model"]
     grp = groups_of(st["facts"])
@@ -964,6 +967,7 @@ def targets_of(st: dict, regname: str, tier: str, seed: int = 0) -> list[dict]:
         for ww in [w] + [AR.num(a) for a in g.get("alternative_widths") or []]:
             for v in AR.zero_byte_patterns(ww):
                 out.append({"form": "group", "value": _hexstr(v, ww, plain), "raw": v, "width": w, "zero_byte": True})
+        out.append({"form": "group", "value": ("" if plain else "0x") + "1" + "0" * (w // 4), "raw": 0, "width": w, "oor": True})
         return out
     r = model.reg(regname)
     if r is None:
@@ -977,6 +981,15 @@ def targets_of(st: dict, regname: str, tier: str, seed: int = 0) -> list[dict]:
                 if xthin and v not in (1, (1 << f.width) - 1):
                     continue
                 out.append({"form": "field", "field": fname, "value": v << f.shift, "raw": v})
+            if f.shift:
+                # a bit-field with a configuration pre-processor is written in the configuration domain (width + shift
+                # bits, "use full 32b address"): its top bit and its largest value, both tiers
+                for v in (1 << (f.width - 1), (1 << f.width) - 1):
+                    if not any(x.get("field") == fname and x["raw"] == v for x in out):
+                        out.append({"form": "field", "field": fname, "value": v << f.shift, "raw": v})
+            if f.shift or not thin:
+                # ... and the first value outside: the area must refuse it (quick: pre-processed fields only)
+                out.append({"form": "field", "field": fname, "value": 1 << (f.width + f.shift), "raw": 0, "oor": True})
             enames = [en for en in f.enums if en not in f.dup_enum_names]
             if xthin and len(enames) > 2:
                 enames = enames[:1] + enames[-1:]
@@ -1021,6 +1034,7 @@ def targets_of(st: dict, regname: str, tier: str, seed: int = 0) -> list[dict]:
             continue
         seen_v.add(v)
         out.append({"form": "reg", "value": _hexstr(v, r.width, False), "raw": v, "width": r.width})
+    out.append({"form": "reg", "value": "0x1" + "0" * ((r.width + 3) // 4), "raw": 0, "width": r.width, "oor": True})
     for v in AR.zero_byte_patterns(r.width):
         v &= covered
         if v not in seen_v:
@@ -1122,6 +1136,62 @@ def expected_dep_image(st: dict, regname: str, t: dict, settings: dict) -> tuple
     return finish_image(st, full, settings), set()
 
 
+def area_validator(st: dict):
+    """The validator the area's own validation entry point compiles for this instance (taken from the real call:
+    area.validate -> check_config -> fastjsonschema.compile), so that thousands of values cost a millisecond each."""
+    if "validator" not in st:
+        st["validator"] = None
+        try:
+            _LAST_VALIDATOR[0] = None
+            A.AREAS[st["inst"]["kind"]].validate(st["inst"], copy.deepcopy(st["cfg"]))
+            st["validator"] = _LAST_VALIDATOR[0]
+        except Exception:  # noqa  (a template that fails its own schema is a base finding)
+            pass
+    return st["validator"]
+
+
+def schema_refuses(st: dict, cfg: dict) -> Optional[str]:
+    """-> "" accepted, text = refused, None = no validator."""
+    import fastjsonschema
+
+    v = area_validator(st)
+    if v is None:
+        return None
+    try:
+        v(copy.deepcopy(cfg))
+        return ""
+    except fastjsonschema.JsonSchemaValueException as e:
+        return str(e.message) or "refused"
+
+
+def schema_forms(st: dict, regname: str, t: dict, cfg: dict) -> list:
+    """The configuration as given and with the value written the other way (integer <-> the hex string get_config /
+    the template writes)."""
+    area = A.AREAS[st["inst"]["kind"]]
+    val = t["value"]
+    if t["form"] == "pair" or t.get("enum"):
+        return [("given", cfg)]
+    if isinstance(val, int):
+        other: Any = f"0x{val:X}"
+        labels = ("integer", "hex-string")
+    else:
+        try:
+            other = int(val, 16)
+        except ValueError:
+            return [("given", cfg)]
+        labels = ("hex-string", "integer")
+    c2 = dict(cfg)
+    s2 = dict(cfg[area.settings_key])
+    if t["form"] == "field":
+        d = dict(s2[regname])
+        d[t["field"]] = other
+        s2[regname] = d
+    else:
+        s2[regname] = other
+    c2[area.settings_key] = s2
+    return [(labels[0], cfg), (labels[1], c2)]
+
+
 def dep_case(case: dict) -> dict:
     from spsdk.exceptions import SPSDKError
 
@@ -1168,6 +1238,23 @@ def dep_case(case: dict) -> dict:
         o.c("evaluations_dep")
         o.c(f"dep:{kind}")
         fkey = t.get("field", "") + "|" + t["form"]
+        if t.get("oor"):
+            # the first value that does not fit: load (or, at the latest, export) has to refuse it
+            try:
+                ob = fuses_fast_load(cfg) if (kind == "fuses" and not rt_all) else area.load(inst, copy.deepcopy(cfg))
+            except SPSDKError:
+                o.c("out_of_range_rejected")
+                continue
+            except Exception as e:  # noqa
+                o.c(f"out_of_range_rejected_by:{type(e).__name__}")
+                continue
+            try:
+                area.export(ob)
+            except Exception as e:  # noqa
+                o.c(f"out_of_range_rejected_at_export_by:{type(e).__name__}")
+                continue
+            o.v("out-of-range-accepted", f"{kind}:{form}", f"{iid} {what}: a value of {('%d' % (t['width'] + 1)) if 'width' in t else 'width+1'} bits is loaded and exported")
+            continue
         try:
             if kind == "fuses" and not rt_all:
                 obj = fuses_fast_load(cfg)  # quick: Fuses.load_from_config itself runs at base for every instance
@@ -1229,6 +1316,14 @@ def dep_case(case: dict) -> dict:
                         o.v("computed-field", "xmcd:crc", f"{iid} {what}: crc {area.crc(obj).hex()} vs {AR.xmcd_crc(img).hex()}")
                 except Exception as e:  # noqa
                     o.v("computed-field", f"xmcd:crc:raises:{_exc_kind(e)}", f"{iid} {what}: {e}")
+        # ---- the area's own schema must not refuse what the area loads and exports ----------------------------------
+        if not t.get("omit"):
+            for label, c2 in schema_forms(st, regname, t, cfg):
+                bad = schema_refuses(st, c2)
+                if bad:
+                    o.v("schema-refuses-loadable-value", f"{kind}:{t['form']}:{label}", f"{iid} {what} written as {label}: loaded and exported, but the area's schema says: {bad[:300]}")
+                elif bad is not None:
+                    o.c("schema_validations")
         # ---- round trips --------------------------------------------------------------------------------------------
         fkey = t.get("field", "") + "|" + t["form"]
         n = per_field_rt.get(fkey, 0)
@@ -1358,6 +1453,76 @@ def hist_configs(st: dict) -> tuple[Optional[dict], Optional[dict], Optional[tup
     return dict(base, **{area.settings_key: pset}), dict(base, **{area.settings_key: full_set}), partial
 
 
+def _dict_change(before: Any, after: Any, path: str = "") -> str:
+    if isinstance(before, dict) and isinstance(after, dict):
+        for k in before:
+            if k not in after:
+                return f"{path}/{k} is gone"
+            d = _dict_change(before[k], after[k], f"{path}/{k}")
+            if d:
+                return d
+        extra = [k for k in after if k not in before]
+        return f"{path}/{extra[0]} was added" if extra else ""
+    return "" if before == after else f"{path}: {before!r} became {after!r}"[:200]
+
+
+def config_object_clauses(st: dict, o: Out) -> None:
+    """The configuration dictionary belongs to the caller: (a) the same dict object loads twice, to the same bytes, and is
+    unchanged afterwards; (b) a configuration without a key that the area's own schema lets go must load or be refused
+    with SPSDKError - no other exception type."""
+    from spsdk.exceptions import SPSDKError
+
+    inst = st["inst"]
+    kind = inst["kind"]
+    area = A.AREAS[kind]
+    iid = A.inst_id(inst)
+    # (a)
+    cfg = copy.deepcopy(st["cfg"])
+    snap = copy.deepcopy(cfg)
+    try:
+        e1 = area.export(area.load_raw(inst, cfg))
+    except Exception as e:  # noqa
+        o.c("hist_template_copy_not_loadable")
+        e1 = None
+    if e1 is not None:
+        o.c("hist_same_dict_twice")
+        if cfg != snap:
+            o.v("object-history", f"{kind}:config-consumed-by-load", f"{iid}: load changed the caller's configuration dictionary: " + _dict_change(snap, cfg))
+        try:
+            e2 = area.export(area.load_raw(inst, cfg))
+            if e2 != e1:
+                o.v("object-history", f"{kind}:same-config-loaded-twice-differs", f"{iid}: the same dictionary object exports differently the second time: " + _diff(st, e1, e2))
+        except Exception as e:  # noqa
+            o.v("object-history", f"{kind}:config-consumed-by-load", f"{iid}: loading the same dictionary object a second time raised {type(e).__name__}: {str(e)[:200]}")
+    # (b)
+    if area_validator(st) is None:
+        o.c("hist_optional_keys_skipped_no_validator")
+        return
+    base = st["cfg"]
+    sk = area.settings_key
+    variants: list = [((k,), {kk: vv for kk, vv in base.items() if kk != k}) for k in base]
+    sett = base.get(sk)
+    if isinstance(sett, dict):
+        names = list(sett)
+        pick = names if len(names) <= 12 else names[:1] + names[-1:] + [n for n in names if n == "header"]
+        for n in dict.fromkeys(pick):
+            variants.append(((sk, n), dict(base, **{sk: {kk: vv for kk, vv in sett.items() if kk != n}})))
+        variants.append(((sk, "*"), dict(base, **{sk: {}})))
+    for path, c in variants:
+        if schema_refuses(st, c) != "":
+            o.c("hist_key_required_by_schema")
+            continue
+        o.c("hist_optional_key_omitted")
+        try:
+            area.load_raw(inst, copy.deepcopy(c))
+        except SPSDKError:
+            o.c("hist_optional_key_omitted_rejected")
+        except Exception as e:  # noqa
+            keylabel = path[0] if len(path) == 1 else (f"{sk}.{path[1]}" if path[1] in ("header", "*") else f"{sk}.<register>")
+            o.v("object-history", f"{kind.split('.')[0]}:optional-key-omitted:{keylabel}:{type(e).__name__}",
+                f"{iid}: the area's schema accepts the configuration without {'.'.join(path)}, loading it raises {type(e).__name__}: {str(e)[:200]}")
+
+
 def hist_case(case: dict) -> dict:
     """(a) P0 = load(partial), b0 = export; (b) load + export a configuration with every register changed;
     (c) P1 = load(partial) again: export == b0; (d) P0 exported again == b0; (e) a fresh template object / template text
@@ -1423,6 +1588,36 @@ def hist_case(case: dict) -> dict:
         o.extra.setdefault("observations", []).append(f"{iid}: all-registers-changed configuration rejected: {str(e)[:200]}")
     except Exception as e:  # noqa
         o.v("object-history", f"{kind}:full-config-raises:{type(e).__name__}", f"{iid}: configuration with every register changed raised {type(e).__name__}: {str(e)[:300]}")
+    # queries: after an object holds non-default content, no read-only looking call may change what it exports / names
+    try:
+        subject_cfg = fcfg if "full" in locals() else pcfg
+        subj = load(subject_cfg)
+        if area.has_parse:
+            sb = area.export(subj)
+            if parse_demanded(kind, inst, sb):
+                subj = area.parse(inst, sb)  # the parsed object is the more exposed one (nothing but the binary behind it)
+                if kind == "tz":
+                    subj._c12_rev = inst["rev"]
+        q_e, q_g = area.export(subj), cfg_of(subj)
+        for qname, thunk in area.queries(subj, inst):
+            try:
+                thunk()
+                o.c("hist_queries")
+            except SPSDKError:
+                o.c("hist_query_rejected")
+            except Exception as e:  # noqa
+                o.c("hist_query_raised_other")
+                o.extra.setdefault("observations", []).append(f"{iid}: {qname} raised {type(e).__name__}: {str(e)[:120]}")
+            e2, g2 = area.export(subj), cfg_of(subj)
+            if e2 != q_e or g2 != q_g:
+                o.v("object-history", f"{kind.split('.')[0]}:query-changes-object:{qname}",
+                    f"{iid}: after {qname}() the object exports / names something else: " + (_diff(st, q_e, e2) if e2 != q_e else "get_config differs"))
+                q_e, q_g = e2, g2
+    except SPSDKError:
+        o.c("hist_query_subject_rejected")
+    except Exception as e:  # noqa
+        o.v("object-history", f"{kind}:query-phase-raises:{_exc_kind(e)}", f"{iid}: {type(e).__name__}: {str(e)[:300]}")
+    config_object_clauses(st, o)
     # (c), (d), (e)
     try:
         b1 = area.export(load(pcfg))
